@@ -148,6 +148,21 @@ class _Coop:
                     raise RuntimeError('granted thread did not come back')
 
 
+def _stop_device(dev):
+    """stop the helper threads a constructed (never started) provider owns: housekeeping of the subscription managers,
+    worker loops of the role providers"""
+    for mgr in dev._subscriptions_managers.values():
+        try:
+            mgr.stop_all(False)
+        except Exception:  # noqa: BLE001
+            pass
+    for role in dev.product_lookup.values():
+        try:
+            role.stop()
+        except Exception:  # noqa: BLE001
+            pass
+
+
 class IdLockRig:
     """real provider object whose `_transaction_id_lock` and `_transaction_id` are traced"""
 
@@ -197,6 +212,9 @@ class IdLockRig:
         traced_cls = type('Traced' + type(self.dev).__name__, (type(self.dev),), {'_transaction_id': property(getter, setter)})
         self.dev.__class__ = traced_cls
         self.dev._transaction_id_lock = TracedLock()
+
+    def close(self):
+        _stop_device(self.dev)
 
     def _tid(self):
         return getattr(self.coop.tls, 'tid', None) if self.coop else None
@@ -352,7 +370,8 @@ def run_idlock(ctx):
         for (case, impl), o in zip(cases, out):
             if o != impl:
                 ctx.disagree('id lock LTS == forced interleaving of generate_transaction_id', case, o, impl)
-    return rig, acts
+    rig.close()
+    return acts
 
 
 # ------------------------------------------------------------------------------------------------ provider + consumers rig
@@ -491,6 +510,7 @@ class Rig:
     def close(self):
         for p in self.patches:
             p.stop()
+        _stop_device(self.dev)
 
     def _stamping_update(self):
         rig = self
@@ -1341,7 +1361,9 @@ def translate(ctx):
                 immediate.append(st)
     finally:
         crig.close()
-    acts = IdLockRig().program()
+    lock_rig = IdLockRig()
+    acts = lock_rig.program()
+    lock_rig.close()
     unmapped = [s for s in all_states + nonfinal + immediate if s not in CTOR]
     if unmapped or len(caps) != 1 or any(a.endswith('?') for a in acts):
         raise RuntimeError(f'translator: unmapped states {unmapped} / capacities {caps} / lock trace {acts}')
@@ -1469,7 +1491,9 @@ def search(ctx):
         ids = [r for r in res if isinstance(r, int)]
         if len(set(ids)) != len(ids) or len(ids) != n:
             ctx.fail('tx-id:not-unique-increasing', f'ids {res} under schedule {granted}', {'threads': n, 'schedule': sched})
+            rig.close()
             return
+    rig.close()
     # more scripts
     probe = Rig(n_consumers=1)
     ops, cap = dict(probe.ops), probe.cap
